@@ -17,6 +17,12 @@ Clauses
                 raise ParseError whose filename is the mutated file and whose lineno is the line of the
                 offending tag (the offending tag is on one line); for a deleted/added nested end only
                 opener_line <= lineno <= last_line is required.
+  directories:  part "dirs": files in 2-3 directories (a/, b/, a/c/, root) where the same relative name
+                ('part.EXT', 'base.EXT', '../b/part.EXT') written in different directories means different
+                files, and a history of entry points loaded through ONE DictLoader: every load must equal
+                what a fresh reference gives (names resolve relative to the directory of the file that
+                contains the directive; a loader's history never changes what a template means).
+The arguments of {% autoescape %} and {% apply %} are plain function names (the documented form).
 EITHER classes (universal safety only): Unicode whitespace other than SP/HTAB/LF and "<pre>" under
 whitespace modes single/oneline; '{{' directly followed by '%'/'#'; else/elif/except/finally orders that
 only Python's grammar rejects, `{% raw %}`, `{% if %}` ... (ParseError *or* SyntaxError at load time
@@ -26,7 +32,7 @@ Open findings on the current tree (known_findings.d/C19.json, findings_inbox/C19
 without a function is accepted and turns escaping off; `{% whitespace <bad mode> %}` raises a bare
 Exception; "block missing name"/"apply missing method name" name the line of the matching end tag.
 
-Sensitivity (quick tier, seed 1, scratch copy of /repo/tornado/template.py; all 9 caught):
+Sensitivity (quick tier, seed 1, scratch copy of /repo/tornado/template.py; all 11 caught):
   M1 _IntermediateControlBlock writes the else/elif/except line at indent_size() instead of -1 -> C19.wellformed_rejected (SyntaxError)
   M2 '{{!' escape consumes two characters instead of one                                     -> C19.output
   M3 filter_whitespace("single") replaces newline runs by " " instead of "\n"                -> C19.output
@@ -36,6 +42,11 @@ Sensitivity (quick tier, seed 1, scratch copy of /repo/tornado/template.py; all 
   M7 "innermost braces" rule for runs of >2 '{' disabled                                     -> C19.wellformed_rejected
   M8 'else' no longer allowed under 'while'                                                  -> C19.wellformed_rejected
   M9 text reached through include/block is never whitespace-filtered (file mode ignored)     -> C19.output
+  M10 escape(...)-looking expression tags created raw (seeded, round 6)                      -> C19.output
+  M11 BaseLoader.load caches under the UNRESOLVED name (resolve_path moved into the miss     -> C19.output, part "dirs", seeds 1, 2, 3
+      branch): a/page and b/page both including 'part.html' share one cached template;          (first generated case; C20's "dirs"
+      was missed before the directory-structured part "dirs" (2-3 directories, same relative    part catches it as C20.output too)
+      names, histories of entry points through ONE loader) was added
 """
 import logging
 
@@ -56,7 +67,8 @@ RULE = (
     "(never containing '}}' or '%}'), set/import, if/elif/else, for/else, counter-bounded while/else, "
     "break/continue, try/except/else/finally with raising expressions, apply, comments, autoescape and "
     "whitespace directives, '{{!' '{%!' '{#!' escapes, runs of 3-5 braces, blocks; loader autoescape/whitespace "
-    "settings; part 'illformed' applies one of 14 named ill-forming mutations at a generated position.  "
+    "settings; part 'illformed' applies one of 14 named ill-forming mutations at a generated position; part 'dirs': "
+    "template sets over 2-3 directories with colliding relative names and a history of 2-6 loads through one loader.  "
     "non-trivial = directives nested >= 2 deep, or inheritance/include, or an escape sequence adjacent to a "
     "brace, or an ill-forming mutation; distinct = SHA-1 of the case"
 )
@@ -99,9 +111,10 @@ def build(case):
     return files, rendered, kw
 
 
-def run_real(files, kw, entry, kwargs):
+def run_real(files, kw, entry, kwargs, loader=None):
     """('ok', bytes) | ('parse', lineno, filename, message) | ('load_exc', type, str) | ('gen_exc', type, str)"""
-    loader = template.DictLoader(dict(files), namespace=G.loader_namespace(), **kw)
+    if loader is None:
+        loader = template.DictLoader(dict(files), namespace=G.loader_namespace(), **kw)
     try:
         t = loader.load(entry)
     except template.ParseError as e:
@@ -254,12 +267,16 @@ def run_case(ctx, case):
 
     # ------------------------------------------------------------------ well-formed
     detail = {"files": files, "loader": case["loader"], "real": real, "ref": ref[:3]}
+    compare_wellformed(ctx, case, real, ref, detail, labels, literals=True)
+    ctx.note(case, labels, nontrivial and ref[0] != "either")
+
+
+def compare_wellformed(ctx, case, real, ref, detail, labels, literals):
     if ref[0] == "parse":
-        raise HarnessError("reference rejects a generated well-formed template: %r %s" % (files, ref[1]))
+        raise HarnessError("reference rejects a generated well-formed template: %r %s" % (detail["files"], ref[1]))
     if ref[0] == "either":
         labels.add("either_" + ref[1])
         # universal safety: loading either works or raises; nothing to compare
-        ctx.note(case, labels, False)
         return
     if real[0] in ("parse", "load_exc"):
         ctx.fail("C19.wellformed_rejected", detail)
@@ -269,7 +286,7 @@ def run_case(ctx, case):
             ctx.fail("C19.exception_instead_of_output", detail)
         elif real[1] != ref[1]:
             ctx.fail("C19.output", detail)
-        else:
+        elif literals:
             segs = root_literals(case)
             if segs is not None:
                 out = real[1]
@@ -278,7 +295,7 @@ def run_case(ctx, case):
                     b = sg.encode("utf-8")
                     j = out.find(b, at)
                     if j < 0:
-                        ctx.fail("C19.literal_text", {"files": files, "segment": sg, "output": out})
+                        ctx.fail("C19.literal_text", {"files": detail["files"], "segment": sg, "output": out})
                         break
                     at = j + len(b)
                 if segs:
@@ -289,13 +306,38 @@ def run_case(ctx, case):
             ctx.fail("C19.output_instead_of_exception", detail)
         elif _family(real[1]) != _family(ref[1]):
             ctx.fail("C19.exception_type", detail)
-    ctx.note(case, labels, nontrivial)
 
 
-PARTS = {"main": run_case, "illformed": run_case}
+def run_dirs_case(ctx, case):
+    """Templates in several directories, the same relative name meaning different files, a history of
+    entry points loaded through ONE loader: every load must give what a fresh reference gives (the
+    meaning of a template does not depend on what the loader has loaded before)."""
+    files, rendered, kw = build(case)
+    kwargs = G.c19_kwargs()
+    labels = {"dirs", "include"}
+    loader = template.DictLoader(dict(files), namespace=G.loader_namespace(), **kw)
+    seen_rel = set()
+    for step, entry in enumerate(case["history"]):
+        real = run_real(files, kw, entry, kwargs, loader=loader)
+        ref = run_ref(files, kw, entry, kwargs)
+        detail = {"files": files, "loader": case["loader"], "history": case["history"], "step": step, "entry": entry,
+                  "real": real, "ref": ref[:3]}
+        compare_wellformed(ctx, case, real, ref, detail, labels, literals=False)
+        if step:
+            labels.add("warm_cache_load")
+    names = [fd["name"] for fd in case["files"]]
+    if any(fd.get("extends") for fd in case["files"]):
+        labels.add("dirs_extends_same_relative_name")
+    if len({n.rsplit("/", 1)[-1] for n in names}) < len(names):
+        labels.add("same_relative_name_different_files")
+    ctx.note(case, labels, True)
+
+
+PARTS = {"main": run_case, "illformed": run_case, "dirs": run_dirs_case}
 
 
 def main(ctx):
     ctx.run_replays(PARTS)
     ctx.explore(G.case_strategy("c19", mutate_prob=(0, 0)), run_case, ctx.n(1000, 30000), name="main")
     ctx.explore(G.case_strategy("c19", mutate_prob=(1, 1)), run_case, ctx.n(500, 15000), name="illformed")
+    ctx.explore(G.dirs_case_strategy("c19"), run_dirs_case, ctx.n(250, 8000), name="dirs")
